@@ -49,6 +49,8 @@ pub struct Obs {
     pub fin_long: String,
     pub fin_raw_short_notrunc: String,
     pub warn: bool,
+    /// every object returned by a finalization passes its validity check (library's and the reference predicate)
+    pub results_valid: bool,
 }
 
 fn gerr(e: GeneratorError) -> String {
@@ -56,15 +58,30 @@ fn gerr(e: GeneratorError) -> String {
 }
 
 pub fn observe(g: &Generator) -> Result<Obs, String> {
-    guarded(|| Obs {
-        size: g.input_size(),
-        fin: g.finalize().map(|h| h.to_string()).unwrap_or_else(gerr),
-        fin_long: g.finalize_without_truncation().map(|h| h.to_string()).unwrap_or_else(gerr),
-        fin_raw_short_notrunc: g
-            .finalize_raw::<false, 64, 32>()
-            .map(|h| h.to_string())
-            .unwrap_or_else(gerr),
-        warn: g.may_warn_about_small_input_size(),
+    use crate::hashobj::Plain;
+    guarded(|| {
+        let a = g.finalize();
+        let b = g.finalize_without_truncation();
+        let c = g.finalize_raw::<false, 64, 32>();
+        let d = g.finalize_raw::<true, 64, 64>();
+        let results_valid = a.as_ref().map(|h| h.is_valid() && h.ref_valid()).unwrap_or(true)
+            && b.as_ref().map(|h| h.is_valid() && h.ref_valid()).unwrap_or(true)
+            && c.as_ref().map(|h| h.is_valid() && h.ref_valid()).unwrap_or(true)
+            && d.as_ref().map(|h| h.is_valid() && h.ref_valid()).unwrap_or(true)
+            // the truncated form in a long object is the same hash
+            && match (&a, &d) {
+                (Ok(x), Ok(y)) => x.to_string() == y.to_string(),
+                (Err(x), Err(y)) => x == y,
+                _ => false,
+            };
+        Obs {
+            size: g.input_size(),
+            fin: a.map(|h| h.to_string()).unwrap_or_else(gerr),
+            fin_long: b.map(|h| h.to_string()).unwrap_or_else(gerr),
+            fin_raw_short_notrunc: c.map(|h| h.to_string()).unwrap_or_else(gerr),
+            warn: g.may_warn_about_small_input_size(),
+            results_valid,
+        }
     })
 }
 
@@ -78,6 +95,7 @@ pub fn expected(r: &Ctph) -> Obs {
             fin_long: "Err(InputSizeTooLarge)".into(),
             fin_raw_short_notrunc: "Err(InputSizeTooLarge)".into(),
             warn: size < 4097,
+            results_valid: true,
         },
         Ok(d) => Obs {
             size,
@@ -89,6 +107,7 @@ pub fn expected(r: &Ctph) -> Obs {
                 "Err(OutputOverflow)".into()
             },
             warn: size < 4097,
+            results_valid: true,
         },
     }
 }
